@@ -4,8 +4,9 @@ from __future__ import annotations
 import os, sys, json, time, hashlib, subprocess, tempfile, shutil, re, random, fcntl, glob
 
 VERIF = os.path.dirname(os.path.dirname(os.path.abspath(__file__)))
-COQ = os.path.join(VERIF, "coq")
-REPO = os.environ.get("VERIF_REPO", "/repo")
+COQ = os.environ.get("VERIF_COQ") or os.path.join(VERIF, "coq")   # VERIF_COQ: private copy for scratch runs
+OUT = os.environ.get("VERIF_OUT") or VERIF                        # VERIF_OUT: where evidence/ and replays/ go
+REPO = os.environ.get("VERIF_REPO") or "/repo"                     # VERIF_REPO: scratch worktree for self-tests
 PY = "/venv/bin/python"
 QFLAGS = ["-Q", os.path.join(COQ, "model"), "Model", "-Q", os.path.join(COQ, "gen"), "Gen",
           "-Q", os.path.join(COQ, "proofs"), "Proofs", "-Q", os.path.join(COQ, "props"), "Props"]
@@ -24,7 +25,7 @@ def child_env():
 
 class BuildLock:
     def __enter__(self):
-        self.f = open(os.path.join(VERIF, ".build.lock"), "w")
+        self.f = open(os.path.join(COQ, ".build.lock"), "w")
         fcntl.flock(self.f, fcntl.LOCK_EX)
         return self
 
@@ -88,10 +89,41 @@ def regen_tables():
     """-> (ok, message).  Writes coq/gen/Tables.v only when the content changes."""
     out = os.path.join(COQ, "gen", "Tables.v")
     rc, txt, _ = run([PY, os.path.join(VERIF, "harness", "extract_tables.py"), out], 120, env=child_env())
-    return rc == 0, txt.strip()
+    msgs = [txt.strip()]
+    ok = rc == 0
+    # per-property extra table generators: harness/tables_<x>.py <out.v> -> coq/gen/Tables<X>.v
+    for gen in sorted(glob.glob(os.path.join(VERIF, "harness", "tables_*.py"))):
+        name = os.path.basename(gen)[len("tables_"):-3]
+        out2 = os.path.join(COQ, "gen", "Tables%s.v" % name.upper())
+        rc2, txt2, _ = run([PY, gen, out2], 120, env=child_env())
+        msgs.append(txt2.strip()[-300:])
+        ok = ok and rc2 == 0
+    return ok, " | ".join(m for m in msgs if m)
+
+
+def write_if_changed(path, text):
+    """Used by table generators: keep mtime when nothing changed (incremental make)."""
+    old = open(path).read() if os.path.exists(path) else None
+    if old != text:
+        tmp = path + ".tmp%d" % os.getpid()
+        with open(tmp, "w") as f:
+            f.write(text)
+        os.replace(tmp, path)
+        return True
+    return False
+
+
+def gen_coqproject():
+    """_CoqProject lists every .v file under model/ gen/ proofs/ props/ (sorted)."""
+    lines = ["-Q model Model", "-Q gen Gen", "-Q proofs Proofs", "-Q props Props"]
+    for d in ("model", "gen", "proofs", "props"):
+        for f in sorted(glob.glob(os.path.join(COQ, d, "*.v"))):
+            lines.append("%s/%s" % (d, os.path.basename(f)))
+    return write_if_changed(os.path.join(COQ, "_CoqProject"), "\n".join(lines) + "\n")
 
 
 def ensure_makefile():
+    gen_coqproject()
     mk = os.path.join(COQ, "Makefile")
     cp = os.path.join(COQ, "_CoqProject")
     if not os.path.exists(mk) or os.path.getmtime(mk) < os.path.getmtime(cp):
@@ -186,6 +218,46 @@ def c_nat(n: int) -> str:
 
 def c_opt(x, f) -> str:
     return "None" if x is None else "(Some %s)" % f(x)
+
+
+def c_pstr(s: str) -> str:
+    return c_str(s)
+
+
+def c_flt(x: float) -> str:
+    import math
+    if math.isnan(x):
+        return "FNan"
+    if math.isinf(x):
+        return "(FInf %s)" % c_bool(x < 0)
+    n, d = x.as_integer_ratio()
+    return "(FFin %s %d%%positive)" % (c_Z(n), d)
+
+
+def c_pv(v) -> str:
+    """Python value -> Coq term of type Model.PyVal.pv (fail-closed)."""
+    if v is None:
+        return "PNone"
+    if v is True or v is False:
+        return "(PBool %s)" % c_bool(v)
+    if isinstance(v, int):
+        return "(PInt %s)" % c_Z(v)
+    if isinstance(v, float):
+        return "(PFloat %s)" % c_flt(v)
+    if isinstance(v, str):
+        return "(PStr %s)" % c_str(v)
+    if isinstance(v, (bytes, bytearray)):
+        return "(PBytes %s)" % c_hex(bytes(v))
+    if isinstance(v, (list, tuple)):
+        return "(PList %s)" % c_list([c_pv(x) for x in v])
+    if isinstance(v, dict):
+        items = []
+        for k, x in v.items():
+            if not isinstance(k, str):
+                raise TypeError("c_pv: non-str dict key %r" % (k,))
+            items.append("(%s, %s)" % (c_str(k), c_pv(x)))
+        return "(PDict %s)" % c_list(items)
+    raise TypeError("c_pv: cannot render %r" % (type(v),))
 
 
 JCLS = ["DecodeError", "UnsupportedKeyUseError", "UnsupportedKeyAlgorithmError",
@@ -383,8 +455,8 @@ class Ctx:
 
     def finish(self) -> int:
         self.coverage["distinct_nontrivial"] = len(self.distinct)
-        os.makedirs(os.path.join(VERIF, "evidence"), exist_ok=True)
-        os.makedirs(os.path.join(VERIF, "replays"), exist_ok=True)
+        os.makedirs(os.path.join(OUT, "evidence"), exist_ok=True)
+        os.makedirs(os.path.join(OUT, "replays"), exist_ok=True)
         for fid, desc in sorted(self.known_hits.items()):
             print("KNOWN-FINDING: property=%s %s (%s)" % (self.pid, desc, fid))
         shown = 0
@@ -398,7 +470,7 @@ class Ctx:
                 continue
             shown += 1
             h = hashlib.sha1((key + json.dumps(replay, sort_keys=True, default=str)).encode()).hexdigest()[:12]
-            path = os.path.join(VERIF, "replays", "%s-%s.json" % (self.pid, h))
+            path = os.path.join(OUT, "replays", "%s-%s.json" % (self.pid, h))
             with open(path, "w") as f:
                 json.dump({"property": self.pid, "signature": sig, "description": desc, "seed": self.seed,
                            "tier": self.tier, "replay": replay}, f, indent=1, default=str)
@@ -411,7 +483,7 @@ class Ctx:
             "wall_s": round(time.time() - self.t0, 2), "violations": len(seen_sig),
             "known_findings_hit": sorted(self.known_hits), "notes": self.notes,
         }
-        with open(os.path.join(VERIF, "evidence", "%s.json" % self.pid), "w") as f:
+        with open(os.path.join(OUT, "evidence", "%s.json" % self.pid), "w") as f:
             json.dump(ev, f, indent=1, default=str)
         print("%s %s: evaluations=%d distinct=%d obligations=%d discharged=%d violations=%d known=%d wall=%.1fs" % (
             self.pid, self.tier, self.coverage["evaluations"], self.coverage["distinct_nontrivial"],
